@@ -26,7 +26,8 @@ def run_demo(wt, a):
     if a.demo_test:
         dst = os.path.join(wt, "hermes", os.path.basename(a.demo_test))
         shutil.copy(a.demo_test, dst)
-        rc, out = sh("go test -vet=off -count=1 -run '%s' ." % (a.demo_run or "Seed|seed|Zz|ZZ"), cwd=os.path.join(wt, "hermes"))
+        tags = ("-tags %s " % a.demo_tags) if a.demo_tags else ""
+        rc, out = sh("go test %s-vet=off -count=1 -run '%s' ." % (tags, a.demo_run or "Seed|seed|Zz|ZZ"), cwd=os.path.join(wt, "hermes"))
         os.remove(dst)
         return rc, out
     if a.demo_cmd:
@@ -37,7 +38,7 @@ def run_demo(wt, a):
 def main():
     ap = argparse.ArgumentParser()
     ap.add_argument("prop"); ap.add_argument("patch")
-    ap.add_argument("--demo-test"); ap.add_argument("--demo-run"); ap.add_argument("--demo-cmd")
+    ap.add_argument("--demo-test"); ap.add_argument("--demo-run"); ap.add_argument("--demo-cmd"); ap.add_argument("--demo-tags")
     ap.add_argument("--demo-dir", help="directory copied into the worktree as seed_demo/ before running --demo-cmd")
     ap.add_argument("--checks"); ap.add_argument("--tier", default="quick"); ap.add_argument("--keep", action="store_true")
     ap.add_argument("--skip-baseline", action="store_true")
